@@ -277,6 +277,8 @@ func panicValue(class string) any {
 		return errSentinel
 	case "string":
 		return "verif-string"
+	case "abort":
+		return http.ErrAbortHandler
 	case "int":
 		return 4242
 	case "runtime":
@@ -301,6 +303,9 @@ func describePanic(v any) (kind, val string) {
 	}
 	if v == any(errSentinel) {
 		return "error", "error"
+	}
+	if v == any(http.ErrAbortHandler) {
+		return "error", "abort"
 	}
 	if _, ok := v.(interface{ RuntimeError() }); ok {
 		if strings.Contains(fmt.Sprint(v), "assignment to entry in nil map") {
